@@ -675,7 +675,7 @@ theorem C01_alg_family_matches_key (env : Env) (srv : String) (now : Int) (t : T
 example : keyFamilyFor "RS256" = some .rsa ∧ keyFamilyFor "ES384" = some .ecdsa ∧ keyFamilyFor "EdDSA" = some .ed25519 ∧
     keyFamilyFor "HS256" = none ∧ keyFamilyFor "none" = none ∧ keyFamilyFor "PS256" = none := by decide
 
-/-! ## 8. Why URLs with dot segments have to be refused (the defect repaired in /repo 8b1f8f2)
+/-! ## 8. Why URLs with dot segments have to be refused (the defect repaired in /repo ea6ca17)
 
 With the lookup as it was (prefix match on the unnormalised URL, `rejectDots = false`), a URL
 under the configured prefix `/one/` whose dot segments lead to another instance of the host is
